@@ -12,22 +12,48 @@ use klukai_types::{
 use std::sync::{atomic::{AtomicI64, Ordering::SeqCst}, Arc, Mutex};
 use std::time::{Duration, Instant};
 
-/// case: pool <nops> { H | R | Q <0|1|2> <id> | C <id> | W <ms> }
+/// case: pool <nops> { H | R | Q <0|1|2> <id> | L <0|1|2> <id> | C <id> | W <ms> }
 ///   H   take the write connection (priority) and keep it          R   release it
 ///   Q   a task requests the connection with priority 0 = client, 1 = sync, 2 = background; once
-///       granted it holds it for 4 ms
+///       granted it uses it, holds it for 2 ms and drops it
+///   L   the same, but the task keeps the connection until it is cancelled
 ///   C   the requesting task <id> is aborted (while queued or while holding)
+/// After every operation the harness waits until the pool is stable: every task is finished, or
+/// is queued behind a holder (its first poll -- which sends the request into its queue -- has
+/// returned), or is an `L` task holding the connection.  So the script, not the scheduler,
+/// decides what is waiting at each release.
 /// obs: grants=<ids in grant order> maxlive=<most WriteConn values alive at once> stuck=<0/1>
 pub fn pool(t: &mut Toks) -> String {
+    use std::future::Future;
+    use std::pin::Pin;
+    use std::sync::atomic::AtomicU8;
+    use std::task::{Context, Poll};
+    const SPAWNED: u8 = 0;
+    const QUEUED: u8 = 1;
+    const GRANTED: u8 = 2;
+    const DONE: u8 = 3;
+    /// marks the task as queued once its first poll has returned without a grant
+    struct FirstPoll<F> { f: Pin<Box<F>>, st: Arc<AtomicU8> }
+    impl<F: Future> Future for FirstPoll<F> {
+        type Output = F::Output;
+        fn poll(mut self: Pin<&mut Self>, cx: &mut Context<'_>) -> Poll<F::Output> {
+            let r = self.f.as_mut().poll(cx);
+            let _ = self.st.compare_exchange(SPAWNED, QUEUED, SeqCst, SeqCst);
+            r
+        }
+    }
+    struct T { id: i64, long: bool, st: Arc<AtomicU8>, h: Option<tokio::task::JoinHandle<()>> }
+
     let rt = tokio::runtime::Builder::new_multi_thread().worker_threads(4).enable_all().build().unwrap();
     let nops = t.usize();
-    enum Op { H, R, Q(u8, i64), C(i64), W(u64) }
+    enum Op { H, R, Q(u8, i64, bool), C(i64), W(u64) }
     let mut ops = vec![];
     for _ in 0..nops {
         ops.push(match t.tok() {
             "H" => Op::H,
             "R" => Op::R,
-            "Q" => Op::Q(t.u64() as u8, t.i64()),
+            "Q" => Op::Q(t.u64() as u8, t.i64(), false),
+            "L" => Op::Q(t.u64() as u8, t.i64(), true),
             "C" => Op::C(t.i64()),
             "W" => Op::W(t.u64()),
             x => panic!("bad op {x}"),
@@ -40,15 +66,20 @@ pub fn pool(t: &mut Toks) -> String {
         let maxlive = Arc::new(AtomicI64::new(0));
         let grants: Arc<Mutex<Vec<i64>>> = Arc::new(Mutex::new(vec![]));
         let mut held = None;
-        let mut tasks: Vec<(i64, tokio::task::JoinHandle<()>)> = vec![];
+        let mut tasks: Vec<T> = vec![];
+        let mut stuck = false;
         for op in ops {
             match op {
                 Op::H => {
-                    let c = pool.write_priority().await.unwrap();
-                    let n = live.fetch_add(1, SeqCst) + 1;
-                    maxlive.fetch_max(n, SeqCst);
-                    grants.lock().unwrap().push(0);
-                    held = Some(c);
+                    match tokio::time::timeout(Duration::from_secs(15), pool.write_priority()).await {
+                        Ok(Ok(c)) => {
+                            let n = live.fetch_add(1, SeqCst) + 1;
+                            maxlive.fetch_max(n, SeqCst);
+                            grants.lock().unwrap().push(0);
+                            held = Some(c);
+                        }
+                        _ => stuck = true,
+                    }
                 }
                 Op::R => {
                     if held.is_some() {
@@ -56,12 +87,14 @@ pub fn pool(t: &mut Toks) -> String {
                         held = None;
                     }
                 }
-                Op::Q(p, id) => {
+                Op::Q(p, id, long) => {
                     let pool = pool.clone();
                     let live = live.clone();
                     let maxlive = maxlive.clone();
                     let grants = grants.clone();
-                    let h = tokio::spawn(async move {
+                    let st = Arc::new(AtomicU8::new(SPAWNED));
+                    let st2 = st.clone();
+                    let fut = async move {
                         let c = match p { 0 => pool.write_priority().await, 1 => pool.write_normal().await, _ => pool.write_low().await };
                         if let Ok(c) = c {
                             struct Guard(Arc<AtomicI64>);
@@ -70,34 +103,60 @@ pub fn pool(t: &mut Toks) -> String {
                             let _g = Guard(live.clone());
                             maxlive.fetch_max(n, SeqCst);
                             grants.lock().unwrap().push(id);
+                            st2.store(GRANTED, SeqCst);
                             // use the connection while holding it
                             let _ = tokio::task::block_in_place(|| c.query_row("SELECT 1", [], |r| r.get::<_, i64>(0)));
-                            tokio::time::sleep(Duration::from_millis(4)).await;
+                            tokio::time::sleep(if long { Duration::from_secs(3600) } else { Duration::from_millis(2) }).await;
                             drop(c);
                         }
-                    });
-                    tasks.push((id, h));
-                    // let the request reach its queue before the next operation
-                    tokio::time::sleep(Duration::from_millis(6)).await;
+                        st2.store(DONE, SeqCst);
+                    };
+                    let h = tokio::spawn(FirstPoll { f: Box::pin(fut), st: st.clone() });
+                    tasks.push(T { id, long, st, h: Some(h) });
                 }
                 Op::C(id) => {
-                    for (i, h) in tasks.iter() {
-                        if *i == id { h.abort(); }
+                    for t in tasks.iter_mut() {
+                        if t.id == id {
+                            if let Some(h) = t.h.take() {
+                                h.abort();
+                                // the task (and the WriteConn or the queued request it owns) is dropped
+                                let _ = tokio::time::timeout(Duration::from_secs(15), h).await;
+                                t.st.store(DONE, SeqCst);
+                            }
+                        }
                     }
-                    tokio::time::sleep(Duration::from_millis(4)).await;
                 }
                 Op::W(ms) => tokio::time::sleep(Duration::from_millis(ms)).await,
             }
+            // wait until the pool is stable
+            let t0 = Instant::now();
+            loop {
+                let holding = held.is_some() || tasks.iter().any(|t| t.long && t.st.load(SeqCst) == GRANTED);
+                let mut stable = true;
+                for t in tasks.iter() {
+                    match t.st.load(SeqCst) {
+                        SPAWNED => stable = false,
+                        QUEUED => if !holding { stable = false },
+                        GRANTED => if !t.long { stable = false },
+                        _ => {}
+                    }
+                }
+                if stable { break; }
+                if t0.elapsed() > Duration::from_secs(15) { stuck = true; break; }
+                tokio::time::sleep(Duration::from_micros(300)).await;
+            }
+            if stuck { break; }
         }
         drop(held.take());
-        // everything that was not cancelled must finish
+        // `L` tasks still holding are cancelled; everything else must finish
+        for t in tasks.iter_mut() {
+            if t.long { if let Some(h) = t.h.take() { h.abort(); let _ = h.await; } }
+        }
         let t0 = Instant::now();
-        let mut stuck = false;
-        for (_, h) in tasks {
-            let left = Duration::from_secs(15).saturating_sub(t0.elapsed());
-            match tokio::time::timeout(left, h).await {
-                Ok(_) => {}
-                Err(_) => stuck = true,
+        for t in tasks.iter_mut() {
+            if let Some(h) = t.h.take() {
+                let left = Duration::from_secs(15).saturating_sub(t0.elapsed());
+                if tokio::time::timeout(left, h).await.is_err() { stuck = true; }
             }
         }
         // and the pool must still serve a request of every priority
